@@ -27,7 +27,7 @@ TInit == Init /\ l = 1
 TReset == /\ IsEv("Reset") /\ Trace[l].full = FullNode
           /\ height' = 0 /\ stored' = <<>> /\ rs' = [has |-> FALSE, run |-> -1]
           /\ db' = [hi |-> NoRec, hist |-> [h \in Heights |-> NoRec]]
-          /\ restarts' = 0 /\ top' = -1
+          /\ restarts' = 0 /\ top' = -1 /\ lc' = -1
           /\ act' = [name |-> "init", full |-> FullNode]
 TStartDuty == IsEv("StartDuty") /\ StartDuty(Trace[l].slot) /\ act'.ok = Trace[l].ok /\ ObsOK
 TCtlStart  == IsEv("CtlStart") /\ CtlStart(Trace[l].slot) /\ act'.ok = Trace[l].ok /\ ObsOK
@@ -36,7 +36,11 @@ TCommit4   == IsEv("Commit4") /\ Commit4(Trace[l].h) /\ ObsOK
 TDecided   == IsEv("Decided") /\ Decided(Trace[l].h, Trace[l].r, Trace[l].n) /\ ObsOK
 TOnTimeout == IsEv("OnTimeout") /\ OnTimeout(Trace[l].h, Trace[l].r) /\ ObsOK
 TRestart   == IsEv("Restart") /\ Restart /\ ObsOK
+(* the process died inside the call, k database writes of it are durable; obs is taken after Validator.Start *)
+TDecidedCrash   == IsEv("DecidedCrash") /\ DecidedCrash(Trace[l].h, Trace[l].r, Trace[l].n, Trace[l].k) /\ ObsOK
+TLocalMsgsCrash == IsEv("LocalMsgsCrash") /\ LocalMsgsCrash(Trace[l].h, Trace[l].k) /\ ObsOK
 TNext == TReset \/ TStartDuty \/ TCtlStart \/ TLocalMsgs \/ TCommit4 \/ TDecided \/ TOnTimeout \/ TRestart
+         \/ TDecidedCrash \/ TLocalMsgsCrash
 TraceSpec == TInit /\ [][TNext]_tvars
 TraceAccepted == TLCGet("stats").diameter - 1 = Len(Trace)
 =============================================================================
